@@ -10,6 +10,9 @@ import Crusta.Model.Prog
 
 namespace Crusta
 
+theorem Prog.bind_eq {α β : Type} (p : Prog α) (f : α → Prog β) : (p >>= f) = p.bind f := rfl
+theorem Prog.pure_eq {α : Type} (a : α) : (pure a : Prog α) = Prog.pure a := rfl
+
 theorem interp_calls_mono {α : Type} (p : Prog α) : ∀ (rs : List Reply) (w : World),
     (interp p rs w).2.calls ≥ w.calls := by
   induction p with
